@@ -76,7 +76,8 @@ Definition ptr_last (p : list string) : string := last p ""%string.
 
 (* ---------- evaluation (Path.Eval): returns the trail and the node.
    On a list: the token must be a canonical index in range (repaired IsNumeric + else branch);
-   on a container: Child(token) (which also understands name[i]); on a leaf: nothing. *)
+   on a container: the member of that name (the token as it is spelled — repaired: Eval used Child(token), which also
+   understands name[i], so "/items[1]" resolved to item 1 of "items"); on a leaf: nothing. *)
 Fixpoint ptr_eval_from (p : list string) (cur : node) : list node * option node :=
   match p with
   | [] => ([], Some cur)
@@ -91,7 +92,7 @@ Fixpoint ptr_eval_from (p : list string) (cur : node) : list node * option node 
           | None => ([], None)
           end
       | Con kvs =>
-          match child t kvs with
+          match kv_get t kvs with        (* the member of that very name (repaired: no name[i] sugar in a reference token) *)
           | Some x => let '(tr, res) := ptr_eval_from r x in (x :: tr, res)
           | None => ([], None)
           end
